@@ -187,7 +187,11 @@ func (c *Ctx) LookupFunc(rel, name string) *types.Func {
 		return f
 	}
 	// a helper that was renamed and re-identified by its role (see SetAlias)
-	return aliasByCanon[rel+"|"+name]
+	if f := aliasByCanon[rel+"|"+name]; f != nil {
+		return f
+	}
+	// ... or by its recorded fingerprint (anchors.go)
+	return c.anchorFallback(rel, name)
 }
 
 // funcAlias: repository functions re-identified structurally after a rename,
